@@ -407,6 +407,9 @@ func (x *c03host) Connect(si *network.ServerIdentity) (network.Conn, error) {
 type c03entry struct {
 	kind string // ok | err | disp | close
 	what string
+	// the delivered message itself: it is kept, as a receiver may keep it, and only turned back
+	// into bytes after everything on the connection has been received
+	val interface{}
 }
 
 type c03log struct {
@@ -416,8 +419,23 @@ type c03log struct {
 
 func (l *c03log) add(kind, what string) {
 	l.mu.Lock()
-	l.l = append(l.l, c03entry{kind, what})
+	l.l = append(l.l, c03entry{kind: kind, what: what})
 	l.mu.Unlock()
+}
+
+func (l *c03log) addVal(v interface{}) {
+	l.mu.Lock()
+	l.l = append(l.l, c03entry{kind: "disp", val: v})
+	l.mu.Unlock()
+}
+
+// c03hexOf marshals a kept value back into bytes.
+func c03hexOf(v interface{}) string {
+	b, err := network.Marshal(v)
+	if err != nil {
+		return "unmarshallable"
+	}
+	return h.Hex(b)
 }
 
 type c03rec struct {
@@ -460,7 +478,8 @@ type c03link struct {
 	r1, r2   *network.Router
 	to       *network.ServerIdentity
 	mu       sync.Mutex
-	got      []string
+	got      []interface{} // delivered values, kept
+	seen     []string      // what each of them marshalled to when its operation was evaluated
 	closed1  chan bool
 	closed2  chan bool
 	proxy    net.Listener
@@ -477,13 +496,8 @@ func (l *c03link) deliveries() int {
 func (l *c03link) register() {
 	for _, t := range c03types {
 		l.r2.RegisterProcessorFunc(t, func(e *network.Envelope) error {
-			b, err := network.Marshal(e.Msg)
-			s := "unmarshallable"
-			if err == nil {
-				s = h.Hex(b)
-			}
 			l.mu.Lock()
-			l.got = append(l.got, s)
+			l.got = append(l.got, e.Msg)
 			l.mu.Unlock()
 			return nil
 		})
@@ -702,6 +716,14 @@ func (st *c03state) tag(s string) { st.tags[s] = true }
 func (st *c03state) close() {
 	for _, l := range st.links {
 		l.stop()
+		// a value that was delivered intact must still be intact after the later traffic
+		l.mu.Lock()
+		for i, v := range l.got {
+			if i < len(l.seen) && l.seen[i] != "" && c03hexOf(v) != l.seen[i] {
+				st.cs.Fail("delivered-value-changed", fmt.Sprintf("delivery %d marshalled to %s when it arrived and to %s after the later messages of the connection", i, l.seen[i], c03hexOf(v)))
+			}
+		}
+		l.mu.Unlock()
 	}
 	st.links = map[string]*c03link{}
 	if st.router != nil {
@@ -850,12 +872,7 @@ func (st *c03state) loopRouter() error {
 	st.log = &c03log{}
 	for _, t := range c03types {
 		st.router.RegisterProcessorFunc(t, func(e *network.Envelope) error {
-			b, err := network.Marshal(e.Msg)
-			s := "unmarshallable"
-			if err == nil {
-				s = h.Hex(b)
-			}
-			st.log.add("disp", s)
+			st.log.addVal(e.Msg)
 			return nil
 		})
 	}
@@ -904,6 +921,12 @@ func (st *c03state) loop(frames [][]byte, tail []byte, chunks []int) string {
 	st.log.mu.Lock()
 	l := append([]c03entry{}, st.log.l...)
 	st.log.mu.Unlock()
+	// only now, after the whole stream went through the connection, the kept values are compared
+	for i := range l {
+		if l[i].kind == "disp" {
+			l[i].what = c03hexOf(l[i].val)
+		}
+	}
 	// canonical events; the first Receive is the identity exchange
 	var ev, dels []string
 	end := ""
@@ -1076,7 +1099,14 @@ wait:
 		}
 	}
 	l.mu.Lock()
-	got := append([]string{}, l.got[before:]...)
+	var got []string
+	for _, v := range l.got[before:] {
+		got = append(got, c03hexOf(v))
+	}
+	for len(l.seen) < before {
+		l.seen = append(l.seen, "")
+	}
+	l.seen = append(l.seen[:before], got...)
 	l.mu.Unlock()
 	ev := []string{}
 	for _, g := range got {
@@ -1095,6 +1125,8 @@ wait:
 		sig := "message-lost"
 		if len(got) > want {
 			sig = "extra-delivery"
+		} else if len(got) == want {
+			sig = "delivered-value-differs"
 		}
 		var exp []string
 		for _, b := range bufs[:want] {
